@@ -126,10 +126,10 @@ func genDocCase(t *rapid.T, maxParas int) DocCase {
 				logical = append(logical, first)
 			}
 			nc := rapid.SampledFrom([]int{0, 0, 0, 1, 2, 3, 6}).Draw(t, "conts")
-			if rapid.IntRange(0, 399).Draw(t, "manyConts") == 0 {
+			if rapid.IntRange(0, 1199).Draw(t, "manyConts") == 0 {
 				// a field of some hundred continuation lines (a long Description, a Files list):
 				// several KiB of value, with more fields behind it
-				nc = rapid.IntRange(150, 500).Draw(t, "nconts")
+				nc = rapid.IntRange(150, 300).Draw(t, "nconts")
 				feats["large-folded-field"] = true
 			}
 			for c := 0; c < nc; c++ {
